@@ -217,6 +217,62 @@ func ruleLex(c *Ctx) {
 		s := sx(po.Body)
 		okPO := strings.Contains(s, "Sel:HasPrefix") && strings.Contains(s, "Op:||") && strings.Contains(s, "(SelectorExpr oper Sel:HasPrefix)") && strings.Contains(s, "Op:!")
 		c.R.Check(okPO, "parser/lexer.primOper", "LEX-3 refuses when an operator character follows", po.Pos(), "len(s)==len(op) || !oper.HasPrefix(rest)", "primOper no longer looks at the character after the operator")
+		// .. and under no other circumstance matches: on every path of the match function that returns a rune count, what is
+		// assumed about the text after the operator is "nothing follows" or "no operator character follows" — never a third
+		// way in (e.g. "a prefix operator follows"), which would cut `.`/`?` out of a longer registered operator
+		for _, lit := range funcLits(po.Body) {
+			tc := c.fnTerms(lit)
+			tc.expand = true
+			for o, d := range c.localDefs(po.Body) {
+				if _, dup := tc.defs[o]; !dup {
+					tc.defs[o] = d
+				}
+			}
+			paths, okP := c.retPaths(lit.Body.List)
+			if !okP {
+				c.R.Unk("parser/lexer.primOper", "LEX-3 matches only when no operator character follows", lit.Pos(), "match literal has loops / too many paths")
+				continue
+			}
+			okOnly, why, nMatch := true, "", 0
+			for _, p := range paths {
+				if p.end != "return" || len(p.ret.Results) != 1 || !isRuneCountTerm(tc.tr(p.ret.Results[0])) {
+					continue
+				}
+				nMatch++
+				justified := false
+				for _, ct := range tc.pathTerms(p) {
+					var disj []string
+					if op, as := splitTerm(ct); op == "or" {
+						disj = as
+					} else {
+						disj = []string{ct}
+					}
+					allGood, any := true, false
+					for _, d := range disj {
+						switch {
+						case strings.HasPrefix(d, "eq(") && strings.Contains(d, "len("):
+							any = true
+						case strings.HasPrefix(d, "not(parser/oper.HasPrefix("):
+							any = true
+						default:
+							allGood = false
+						}
+					}
+					if any && allGood {
+						justified = true
+					} else if any && !allGood {
+						why = "the match is also allowed by " + ct
+					}
+				}
+				if !justified {
+					okOnly = false
+					if why == "" {
+						why = fmt.Sprintf("a matching path assumes only %v", tc.pathTerms(p))
+					}
+				}
+			}
+			c.R.Check(okOnly && nMatch > 0, "parser/lexer.primOper", "LEX-3 matches only when no operator character follows", lit.Pos(), "every matching path assumes len(rest)==0 or !oper.HasPrefix(rest), and nothing weaker", "primOper matches in a situation other than 'nothing follows' / 'no operator character follows': "+why+" — a registered operator that starts with `.` or `?` and continues that way is split")
+		}
 	} else {
 		c.R.Anchor("parser/lexer.primOper")
 	}
